@@ -7,7 +7,7 @@ EXTENDS Crypto, Json, TLC, FiniteSets
 
 CONSTANTS Seed, Family, Tier
 
-CS == INSTANCE CipherSelect WITH Universe <- {}, MaxRecs <- 0, Corruptions <- {}, G_ShortStop <- TRUE, G_Concat <- TRUE,
+CS == INSTANCE CipherSelect WITH Universe <- {}, MaxRecs <- 0, Corruptions <- {}, LastIndex <- 63, G_Bound <- TRUE, G_ShortStop <- TRUE, G_Concat <- TRUE,
                                 recs <- <<>>, corrupt <- "none", data <- <<>>, idx <- 0, acc <- <<>>, pc <- "", nreq <- 0,
                                 result <- [ok |-> FALSE, v |-> <<>>]
 
@@ -41,7 +41,7 @@ CipherReq(i) == [pt |-> 0, netfn |-> 6, cmd |-> 84, data |-> <<14, 0, 128 + i>>]
 Discovery(id, recs, tail, tailname) ==
   LET data == CS!DataOf(recs) \o tail
       ok == tail = <<>>
-      n == (Len(data) \div 16) + 1
+      n == IF Len(data) = 1024 THEN 64 ELSE (Len(data) \div 16) + 1       \* list index 3Fh is the last there is
   IN [id |-> id, info |-> [family |-> "discovery", insess |-> FALSE, bytes |-> Len(data), chunks |-> n, tail |-> tailname],
       steps |-> << [k |-> "rules", rules |-> CipherRules(data)],
                    [k |-> "call", api |-> "RetrieveSupportedCipherSuites", label |-> "discover",
@@ -63,7 +63,25 @@ DiscoverySet ==
              \cup { Discovery("bx-" \o ToString(m) \o "-" \o Tails[t][1], Rep(Pair16, m), Tails[t][2], Tails[t][1]) : m \in 1..2, t \in 1..Len(Tails) }
       twice == { DiscoveryTwice("t-" \o ToString(n), ListOf(n * 50 + 9, n)) : n \in {0, 2, 4, 6, 9, 13} }
                \cup { DiscoveryTwice("tx-" \o ToString(m), Rep(Pair16, m)) : m \in 1..3 }
-  IN good \cup exact \cup bad \cup twice
+      \* everything the 6-bit list index can address: 62..64 full chunks, the last with and without a short chunk after it
+      full == { Discovery("x-" \o ToString(m), Rep(Pair16, m), <<>>, "none") : m \in {62, 63, 64} }
+              \cup { Discovery("x1-63", Rep(Pair16, 63) \o <<Std(3, 1, <<1>>, <<1>>)>>, <<>>, "none"),
+                     Discovery("bx-63-trunc2", Rep(Pair16, 63), <<192, 5>>, "trunc2") }
+  IN good \cup exact \cup bad \cup twice \cup full
+\* a BMC that answers every request with a full chunk of well-formed records: the enumeration must still end (C05)
+EndlessRule == [rule |-> "endless", when |-> << IsCipherReq >>,
+                datagrams |-> << Dg(NullWrapper(0, MsgRsp(7, 84, 0, <<14>> \o CS!DataOf(Pair16))), [kind |-> "chunk", i |-> 0]) >>]
+EndlessSet ==
+  { [id |-> "endless-discovery", info |-> [family |-> "endless", insess |-> FALSE],
+     steps |-> << [k |-> "rules", rules |-> << EndlessRule >>],
+                  [k |-> "call", api |-> "RetrieveSupportedCipherSuites", label |-> "discover",
+                   exp |-> [prop |-> "C05", outcome |-> "any", maxreqs |-> 64]] >>],
+    [id |-> "endless-open", info |-> [family |-> "endless", insess |-> FALSE],
+     steps |-> << [k |-> "rules", rules |-> << EndlessRule, OsrRefuse >>],
+                  [k |-> "call", api |-> "NewV2Session", label |-> "open",
+                   args |-> [Username |-> <<97>>, Password |-> <<98>>, KG |-> <<>>, MaxPrivilegeLevel |-> 4, PrivilegeLevelLookup |-> TRUE,
+                             CipherSuites |-> <<>>],
+                   exp |-> [prop |-> "C05", outcome |-> "any", maxreqs |-> 65]] >>] }
 
 \* --------------------------------------------------------------------- C12
 SelU == << <<3, 4, 1>>, <<1, 1, 1>>, <<2, 2, 1>>, <<1, 2, 1>>, <<3, 1, 1>> >>
@@ -92,6 +110,31 @@ Selection(id, prefs, adv) ==
                     exp |-> [prop |-> "C12", outcome |-> "errclass",
                              errclass |-> IF r.kind = "propose" THEN "other" ELSE "ErrNoSupportedCipherSuite",
                              reqs |-> disc \o osr]] >>]
+\* records that list several integrity / confidentiality algorithms (22.15.1): the advertised set is every combination
+SelectionRecs(id, prefs, recs) ==
+  LET data == CS!DataOf(recs)
+      adv == CS!SuitesOf(CS!ExpandAll(recs))
+      r == CS!Select(prefs, adv)
+      n == (Len(data) \div 16) + 1
+      disc == IF r.discovery THEN [i \in 1..n |-> CipherReq(i - 1)] ELSE <<>>
+      osr == IF r.kind = "propose" THEN << [pt |-> 16, netfn |-> -1, cmd |-> -1, data |-> r.suite] >> ELSE <<>>
+  IN [id |-> id, info |-> [family |-> "selection-multi", insess |-> FALSE, prefs |-> prefs, advertised |-> SetToSeq(adv)],
+      steps |-> << [k |-> "rules", rules |-> CipherRules(data) \o << OsrRefuse >>],
+                   [k |-> "call", api |-> "NewV2Session", label |-> "open",
+                    args |-> [Username |-> <<97>>, Password |-> <<98>>, KG |-> <<>>, MaxPrivilegeLevel |-> 4, PrivilegeLevelLookup |-> TRUE,
+                              CipherSuites |-> [i \in 1..Len(prefs) |-> Suite(prefs[i])]],
+                    exp |-> [prop |-> "C12", outcome |-> "errclass",
+                             errclass |-> IF r.kind = "propose" THEN "other" ELSE "ErrNoSupportedCipherSuite",
+                             reqs |-> disc \o osr]] >>]
+MultiRec(s, iv, cv) == IF SuiteId(s) >= 128 THEN Oem(SuiteId(s), <<1, 2, 3>>, s[1], iv, cv) ELSE Std(SuiteId(s), s[1], iv, cv)
+MultiSet ==
+  { SelectionRecs("sm-" \o ToString(k) \o "-" \o ToString(a) \o ToString(b) \o ToString(c),
+                  CASE c = 1 -> << SelU[k], SelU[(k % 5) + 1] >> [] c = 2 -> << SelU[(k % 5) + 1], SelU[k] >> [] OTHER -> <<>>,
+                  << MultiRec(SelU[k],
+                              CASE a = 1 -> << SelU[k][2] >> [] a = 2 -> << SelU[k][2], (SelU[k][2] % 4) + 1 >> [] OTHER -> << (SelU[k][2] % 4) + 1, SelU[k][2] >>,
+                              CASE b = 1 -> << 1, 2 >> [] b = 2 -> << 2, 1 >> [] OTHER -> << 3, 1, 2 >>) >>
+                  \o (IF c = 3 /\ k > 2 THEN << Std(3, 1, <<1, 2>>, <<2, 1, 3>>) >> ELSE <<>>))
+      : k \in 1..5, a \in 1..3, b \in 1..3, c \in 1..3 }
 SelectionTwice(id, prefs1, adv1, prefs2, adv2) ==
   LET a == Selection(id, prefs1, adv1)  b == Selection(id, prefs2, adv2) IN
   [a EXCEPT !.steps = a.steps \o b.steps, !.info = [a.info EXCEPT !.family = "selection-twice"]]
@@ -102,9 +145,19 @@ SelectionSet ==
       \* with the default list, with the same explicit list, over few and many advertised records
       pairs == { SelectionTwice("st-" \o ToString(p) \o "-" \o ToString(a1) \o "-" \o ToString(a2), p, a1, p, a2)
                    : p \in {<<>>, <<SelU[1], SelU[2]>>, <<SelU[3], SelU[1], SelU[2]>>}, a1 \in {{SelU[2]}, {SelU[2], SelU[4]}, U}, a2 \in {U, {SelU[1], SelU[2]}} }
-  IN { Selection("s-" \o ToString(p) \o "-" \o ToString(a), p, a) : p \in prefs, a \in SUBSET U } \cup pairs
+  IN { Selection("s-" \o ToString(p) \o "-" \o ToString(a), p, a) : p \in prefs, a \in SUBSET U } \cup pairs \cup MultiSet
 
-Scripts == CASE Family = "discovery" -> DiscoverySet [] Family = "selection" -> SelectionSet
+\* C17: the same scenarios judged as histories on one connection (a second discovery / establishment must not see the first)
+Reprop(sc, p) == [sc EXCEPT !.steps = [i \in 1..Len(sc.steps) |-> IF "exp" \in DOMAIN sc.steps[i]
+                                                                   THEN [sc.steps[i] EXCEPT !.exp.prop = p] ELSE sc.steps[i]]]
+ReuseSet ==
+  LET U == {SelU[i] : i \in 1..Len(SelU)} IN
+  { Reprop(DiscoveryTwice("rt-" \o ToString(n) \o "-" \o ToString(j), ListOf(n * 50 + j + Seed, n)), "C17") : n \in {0, 1, 2, 3, 4, 6, 9, 13, 20}, j \in 1..3 }
+  \cup { Reprop(DiscoveryTwice("rtx-" \o ToString(m), Rep(Pair16, m)), "C17") : m \in {1, 2, 3, 5, 63} }
+  \cup { Reprop(SelectionTwice("rst-" \o ToString(p) \o "-" \o ToString(a1) \o "-" \o ToString(a2), p, a1, p, a2), "C17")
+            : p \in {<<>>, <<SelU[1], SelU[2]>>, <<SelU[3], SelU[1], SelU[2]>>}, a1 \in {{SelU[2]}, {SelU[2], SelU[4]}, U}, a2 \in {U, {SelU[1], SelU[2]}, {SelU[1]}} }
+
+Scripts == CASE Family = "discovery" -> DiscoverySet [] Family = "selection" -> SelectionSet [] Family = "endless" -> EndlessSet [] Family = "reuse" -> ReuseSet
 Header == [header |-> TRUE, family |-> Family]
 ASSUME PrintT(<<"HEADER", ToJson(Header)>>)
 ASSUME \A s \in Scripts : PrintT(<<"SCRIPT", ToJson(s)>>)
